@@ -5,7 +5,7 @@
    bit 1: the observed behaviour is not the specified one. *)
 From Coq Require Import List NArith ZArith Bool.
 From LW Require Export Base.Outcome Base.Bytes Crypto.AES Crypto.CMAC Mac.Commands Mac.Stream Frame.Model Frame.Spec
-     Sec.MIC Sec.JoinAccept Sec.JoinSpec.
+     Sec.MIC Sec.JoinAccept Sec.JoinSpec Sec.WireMIC.
 Import ListNotations.
 Open Scope N_scope.
 
@@ -20,6 +20,10 @@ Inductive case :=
 | CDec (key : list N) (p : phy) (o : outcome phy)
 (* Encrypt then Decrypt with the same key: p, final frame; [modulo] = compare modulo trailing all-zero masks *)
 | CRound (modulo : bool) (key : list N) (p : phy) (o : outcome phy)
+(* octets as received: UnmarshalBinary; ValidateUplinkJoinMIC *)
+| CWireUp (key : list N) (bs : list N) (o : outcome bool)
+(* octets as received: UnmarshalBinary; DecryptJoinAcceptPayload enckey (frame afterwards); ValidateDownlinkJoinMIC *)
+| CWireAccept (ty : N) (je : list N) (dn : N) (key enckey : list N) (bs : list N) (o_dec : outcome phy) (o_val : outcome bool)
 | CCmac (k m o : list N)
 | CAesDec (k b o : list N).
 
@@ -95,6 +99,33 @@ Definition check (c : case) : N :=
          (if spec_valid p && match pl p with PLJoinAccept _ _ _ _ _ _ _ _ => true | _ => false end
           then phyeqb o (Ok (if modulo then wire_phy p else p))
           else negb (is_panic o))
+  | CWireUp key bs o =>
+    code (obeqb (wire_validate_up_join key bs) o)
+         (match o with
+          | Ok b => let '(carried, specified) := wire_spec_up_join key bs in Bool.eqb b (bytes_eqb carried specified)
+          | Err => true
+          | _ => false
+          end)
+  | CWireAccept ty je dn key enckey bs o_dec o_val =>
+    let m := wire_join_accept ty je dn key enckey bs in
+    code (match m with
+          | Ok (q, b) => phyeqb o_dec (Ok q) && obeqb o_val (Ok b)
+          | _ =>
+            (* the model stops at the first failing step; the harness reports the later ones as Err *)
+            match (do p <- phy_unmarshal bs; decrypt_join_accept enckey p) with
+            | Ok q => phyeqb o_dec (Ok q) && negb (is_ok o_val)
+            | _ => negb (is_ok o_dec)
+            end
+          end)
+         (* the decrypted payload is the octets the sender encrypted, and the verdict is
+            (decrypted MIC = specification MIC over the MHDR octet as received and those octets) *)
+         (match o_dec, o_val, wire_spec_join_accept ty je dn key enckey bs with
+          | Ok q, Ok b, Some (body, carried, specified) =>
+            Bool.eqb b (bytes_eqb carried specified)
+            && oeqb (payload_marshal (pl q)) (Ok body) && bytes_eqb (mic q) carried
+          | Ok q, Err, Some (body, carried, specified) => false   (* decoded, but its MIC cannot be checked *)
+          | _, _, _ => negb (is_panic o_dec) && negb (is_panic o_val)
+          end)
   | CCmac k m o => code (bytes_eqb (cmac k m) o) (Nat.eqb (length o) 16 && bytes_ok o)
   | CAesDec k b o =>
     let rks := expand_key k in
